@@ -122,6 +122,21 @@ def c021(ctx):
     f = ctx.fn(R, "<sst::log::FsyncCoalescingCore as sync42::work_coalescing_queue::WorkCoalescingCore>::work")
     if f:
         c021_fsync_core(ctx, R, f)
+    # the token a coalesced fdatasync is asked to cover is the largest offset of the waiters it answers
+    f = ctx.fn(R, "<sst::log::FsyncCoalescingCore as sync42::work_coalescing_queue::WorkCoalescingCore>::batch")
+    if f:
+        from blue import pwc
+        try:
+            pwc.comparison_only(f, (2, 3))
+            tab = {}
+            for name, (x, y) in (("acc < seen", (5, 9)), ("acc == seen", (7, 7)), ("acc > seen", (9, 5))):
+                tab[name] = (pwc.evaluate(f, 0, env0={1: pwc.OPAQUE, 2: x, 3: y}), max(x, y))
+            bad = [n for n, (got, want) in tab.items() if got != want]
+            ctx.check(R, f, "batch-is-max", not bad, "the accumulated token is max(acc, seen) under every ordering of the two offsets (comparison-only function, three orderings evaluated)",
+                      "the fsync queue's accumulated offset is not the maximum when %s: a waiter with a larger offset is answered by a batch whose token "
+                      "the `synced >= acc` short-cut already covers, without a covering fdatasync" % " / ".join(bad))
+        except pwc.NotInClass as e:
+            ctx.check(R, f, "batch-is-max", False, "", "FsyncCoalescingCore::batch is no longer a comparison-only function of its two offsets (%s): cannot show it returns the maximum" % e)
     # LogBuilder::flush really flushes the BufWriter
     f = ctx.fn(R, "sst::log::LogBuilder::flush")
     if f:
